@@ -48,7 +48,13 @@ def build_dataset(kind, pos_unit):
     part["mass"] = A_(np.arange(len(ppts), dtype=np.float64) + 7000, unit="M_sun")
     part["id"] = A_(np.arange(len(ppts), dtype=np.int64), unit="dimensionless")
     ds["part"] = part
-    spec = {"mesh": (pts, n), "hydro": (pts, n), "part": (ppts, len(ppts))}
+    # a group with its own positions that happens to have as many rows as the mesh (its positions differ)
+    tpts = pts[::-1].copy()
+    tr = DG()
+    tr["position"] = V_(tpts[:, 0].copy(), tpts[:, 1].copy(), tpts[:, 2].copy(), unit=pos_unit)
+    tr["age"] = A_(np.arange(n, dtype=np.float64) + 9000, unit="yr")
+    ds["tracers"] = tr
+    spec = {"mesh": (pts, n), "hydro": (pts, n), "part": (ppts, len(ppts)), "tracers": (tpts, n)}
     if kind in ("full", "small"):
         other = DG()
         other["q"] = A_(np.arange(4, dtype=np.float64), unit="s")
@@ -229,7 +235,7 @@ def run(ctx):
         "evaluations": acc.evaluations,
         "distinct_nontrivial": acc.nontrivial,
         "rule": "product: {sphere, box} x origin lattice x radius/size lattice {0,1/4,1/2,1,2} (per axis for boxes) x (position unit, "
-        "argument unit) in {(m,m),(m,cm),(cm,m)} x {Array, Quantity} on a 5-group dataset whose 125 mesh rows and 18 particle rows lie "
+        "argument unit) in {(m,m),(m,cm),(cm,m)} x {Array, Quantity} on a 6-group dataset whose 125 mesh rows and 18 particle rows lie "
         "on dyadic lattices; plus a loader-produced dataset; all cases distinct by construction and all non-trivial (rows on the boundary)",
         "samples": acc.samples,
         "exhaustive": True,
